@@ -1011,3 +1011,189 @@ Proof.
     pose proof (Hlow s Hf). pose proof (Hmin s' Hf'). lia.
   - intros ->. split; [exact Hex|exact Hlow].
 Qed.
+
+(* ---------------------------------------------------------------------------------------------- *)
+(* 12. approx_SP_alternative_deletion_ILP                                                           *)
+
+Lemma NoDup_map_inj_in {A B} (f : A -> B) l :
+  (forall x y, In x l -> In y l -> f x = f y -> x = y) -> NoDup l -> NoDup (map f l).
+Proof.
+  intros Hinj Hnd. induction Hnd as [|x l Hx Hl IH]; [constructor|]. simpl. constructor.
+  - intros Hin. apply in_map_iff in Hin. destruct Hin as (y & E & Hy).
+    assert (y = x) by (apply Hinj; [now right|now left|assumption]). subst. contradiction.
+  - apply IH. intros a b Ha Hb. apply Hinj; now right.
+Qed.
+
+Lemma filter_all {T} (f : T -> bool) l : (forall x, In x l -> f x = true) -> filter f l = l.
+Proof.
+  induction l as [|x l IH]; intros H; [reflexivity|]. simpl. rewrite (H x (or_introl eq_refl)). f_equal.
+  apply IH. intros y Hy. apply H. now right.
+Qed.
+
+Lemma filter_none {T} (f : T -> bool) l : (forall x, In x l -> f x = false) -> filter f l = [].
+Proof.
+  induction l as [|x l IH]; intros H; [reflexivity|]. simpl. rewrite (H x (or_introl eq_refl)).
+  apply IH. intros y Hy. apply H. now right.
+Qed.
+
+Lemma partition_perm {T} (f : T -> bool) l : Permutation l (filter (fun x => negb (f x)) l ++ filter f l).
+Proof.
+  induction l as [|x l IH]; [constructor|]. simpl. destruct (f x); simpl.
+  - now apply Permutation_cons_app.
+  - now constructor.
+Qed.
+
+Lemma decode_alts_mem alts s a : NoDup alts -> (a < length alts)%nat ->
+  memN (nth a alts 0%N) (decode_alts alts s) = (0 <? s (DelAlt a)).
+Proof.
+  intros Hnd Ha. apply eq_true_iff_eq. unfold decode_alts, decode_alt_idx. rewrite memN_In, in_map_iff. split.
+  - intros (b & E & Hb). apply filter_In in Hb. destruct Hb as [Hb Db]. apply in_seq in Hb.
+    assert (b = a) by (apply (proj1 (NoDup_nth alts 0%N) Hnd); [lia|assumption|assumption]). now subst.
+  - intros D. exists a. split; [reflexivity|]. apply filter_In. split; [apply in_seq; lia|assumption].
+Qed.
+
+Section AltRows.
+Variables (alts axis : list N) (posn : nat -> nat) (s : asg).
+Hypothesis Hnd : NoDup alts.
+Hypothesis Hperm : Permutation alts axis.
+Hypothesis Hpos : forall a, (a < length alts)%nat -> (posn a < length alts)%nat /\ nth (posn a) axis 0%N = nth a alts 0%N.
+Hypothesis Hbin : leftof_binary s (length alts).
+Hypothesis Hlf : forall x y, (x < length alts)%nat -> (y < length alts)%nat -> x <> y ->
+  (s (LeftOf x y) = 1 <-> (posn x < posn y)%nat).
+Hypothesis Hda : forall a, (a < length alts)%nat -> s (DelAlt a) = 0 \/ s (DelAlt a) = 1.
+
+Lemma altdel_cons_sem p : Forall (complete_on alts) p ->
+  let D := decode_alts alts s in
+  ((forall c, In c (altdel_cons_cstrs alts p) -> holds s c) <-> SPw_axis (delete_alts D p) (keepN D axis)).
+Proof.
+  intros Hc D. unfold altdel_cons_cstrs. rewrite flat_map_forall, <- Forall_forall.
+  rewrite (sp_matrix_rows (fun row => forall c, In c (row_cstrs alt_relax row) -> holds s c)).
+  set (keep := fun x : N => negb (memN x D)).
+  assert (Hrel : forall i j k, (i < length alts)%nat -> (j < length alts)%nat -> (k < length alts)%nat ->
+            if keep (nth i alts 0%N) && keep (nth j alts 0%N) && keep (nth k alts 0%N)
+            then eval s (alt_relax i j k) = 0 else eval s (alt_relax i j k) <= -2).
+  { intros i j k Hi Hj Hk. unfold keep, D. rewrite !decode_alts_mem by assumption.
+    unfold alt_relax. cbn [eval fold_right fst snd].
+    destruct (Hda i Hi) as [Ei|Ei], (Hda j Hj) as [Ej|Ej], (Hda k Hk) as [Ek|Ek]; rewrite Ei, Ej, Ek; simpl; lia. }
+  unfold SPw_axis, delete_alts. rewrite Forall_forall in Hc. split.
+  - intros H o' Ho'. apply in_map_iff in Ho'. destruct Ho' as (o & <- & Ho).
+    apply (order_rows_sem alts axis posn Hnd Hperm Hpos s Hbin Hlf alt_relax keep Hrel o (Hc o Ho)). now apply H.
+  - intros H o Ho.
+    apply (order_rows_sem alts axis posn Hnd Hperm Hpos s Hbin Hlf alt_relax keep Hrel o (Hc o Ho)).
+    apply (H (delete_order D o)). now apply in_map.
+Qed.
+End AltRows.
+
+Lemma feasible_altdel_unfold alts p s : feasible (altdel_ilp alts p) s <->
+  structural s (length alts) /\ trans_sem s (length alts) /\
+  (forall a, (a < length alts)%nat -> s (DelAlt a) = 0 \/ s (DelAlt a) = 1) /\
+  (forall c, In c (altdel_cons_cstrs alts p) -> holds s c).
+Proof.
+  rewrite feasible_iff. unfold altdel_ilp. cbn [i_vars i_cstrs]. unfold structural, alt_vars.
+  rewrite !forall_in_app, leftof_vars_sem, pos_vars_sem, (binary_vars_sem DelAlt),
+          trans_cstrs_sem, total_cstrs_sem, pos_cstrs_sem. tauto.
+Qed.
+
+Lemma objective_altdel alts p s : (forall a, (a < length alts)%nat -> s (DelAlt a) = 0 \/ s (DelAlt a) = 1) ->
+  objective (altdel_ilp alts p) s = Z.of_nat (length (decode_alts alts s)).
+Proof.
+  intros H. unfold objective, altdel_ilp, decode_alts, decode_alt_idx. cbn [i_obj]. rewrite map_length.
+  apply (objective_count DelAlt). intros v Hv. apply H. lia.
+Qed.
+
+Lemma decode_alts_nodup alts s : NoDup alts -> NoDup (decode_alts alts s) /\ incl (decode_alts alts s) alts.
+Proof.
+  intros Hnd. unfold decode_alts, decode_alt_idx. split.
+  - apply NoDup_map_inj_in; [|apply NoDup_filter, seq_NoDup]. intros x y Hx Hy E.
+    apply filter_In in Hx, Hy. destruct Hx as [Hx _], Hy as [Hy _]. apply in_seq in Hx, Hy.
+    apply (proj1 (NoDup_nth alts 0%N) Hnd); [lia|lia|assumption].
+  - intros x Hx. apply in_map_iff in Hx. destruct Hx as (a & <- & Ha). apply filter_In in Ha.
+    destruct Ha as [Ha _]. apply in_seq in Ha. apply nth_In. lia.
+Qed.
+
+Theorem ilp_altdel_sound alts p s : NoDup alts -> Forall (complete_on alts) p ->
+  feasible (altdel_ilp alts p) s ->
+  let D := decode_alts alts s in
+  objective (altdel_ilp alts p) s = Z.of_nat (length D) /\
+  cert_alt alts p (length D) (decode_axis alts s) D = true.
+Proof.
+  intros Hnd Hc Hf D. apply feasible_altdel_unfold in Hf. destruct Hf as (Hst & _ & Hda & Hcons).
+  split; [now apply objective_altdel|].
+  destruct (decode_placement alts s Hnd Hst) as (Hperm & Hpos & Hlf).
+  destruct (decode_alts_nodup alts s Hnd) as [HD1 HD2].
+  apply cert_alt_correct; [assumption|assumption|]. split; [exact HD1|]. split; [exact HD2|]. split; [reflexivity|].
+  split; [now apply keepN_perm|].
+  apply (altdel_cons_sem alts _ (posn_of s) s Hnd Hperm Hpos (proj1 Hst) Hlf Hda p Hc). exact Hcons.
+Qed.
+
+(* a certificate may carry a partial axis (the dynamic programme) or a full one (the ILP): only its restriction
+   to the remaining alternatives matters; the assignment places the deleted alternatives at the right end *)
+Theorem ilp_altdel_complete alts p k axis D : NoDup alts -> Forall (complete_on alts) p ->
+  cert_alt alts p k axis D = true ->
+  exists s, feasible (altdel_ilp alts p) s /\ objective (altdel_ilp alts p) s = Z.of_nat k /\
+            keepN D (decode_axis alts s) = keepN D axis /\ (forall x, In x (decode_alts alts s) <-> In x D).
+Proof.
+  intros Hnd Hc Hcert. apply cert_alt_correct in Hcert; [|assumption|assumption].
+  destruct Hcert as (HD & HDin & Hk & Hperm0 & Hsp).
+  set (axis' := keepN D axis ++ filter (fun x => memN x D) alts).
+  assert (Hperm : Permutation alts axis').
+  { unfold axis'. eapply perm_trans; [apply (partition_perm (fun x => memN x D))|].
+    apply Permutation_app_tail. exact Hperm0. }
+  assert (Hk' : keepN D axis' = keepN D axis).
+  { unfold axis', keepN. rewrite filter_app, filter_filter_and.
+    rewrite (filter_none _ (filter (fun x => memN x D) alts)).
+    - rewrite app_nil_r. apply filter_ext. intros x. now destruct (memN x D).
+    - intros x Hx. apply filter_In in Hx. destruct Hx as [_ ->]. reflexivity. }
+  set (da := fun a => memN (nth a alts 0%N) D).
+  destruct (axis_placement alts axis' (fun _ => false) da Hnd Hperm) as (Hpos & Hst & Htr & Hlf & Hdec).
+  set (s := mk_asg (posn_axis alts axis') (fun _ => false) da) in *.
+  assert (Hda : forall a, (a < length alts)%nat -> s (DelAlt a) = 0 \/ s (DelAlt a) = 1).
+  { intros a _. unfold s, mk_asg. destruct (da a); auto. }
+  assert (Hmem : forall x, In x (decode_alts alts s) <-> In x D).
+  { intros x. split.
+    - intros Hx. destruct (decode_alts_nodup alts s Hnd) as [_ Hin]. pose proof (Hin x Hx) as Hxa.
+      apply (In_nth _ _ 0%N) in Hxa. destruct Hxa as (a & Ha & <-).
+      apply memN_In in Hx. rewrite decode_alts_mem in Hx by assumption.
+      unfold s, mk_asg, da in Hx. apply memN_In. destruct (memN (nth a alts 0%N) D); [reflexivity|discriminate].
+    - intros Hx. pose proof (HDin x Hx) as Hxa. apply (In_nth _ _ 0%N) in Hxa. destruct Hxa as (a & Ha & <-).
+      apply memN_In. rewrite decode_alts_mem by assumption. unfold s, mk_asg, da.
+      apply memN_In in Hx. now rewrite Hx. }
+  assert (EK : forall l, keepN (decode_alts alts s) l = keepN D l).
+  { intros l. apply keepN_ext. intros a _. apply Hmem. }
+  assert (ED : delete_alts (decode_alts alts s) p = delete_alts D p).
+  { unfold delete_alts. apply map_ext_in. intros o Ho. apply (delete_order_ext _ _ alts).
+    - apply complete_on_incl. rewrite Forall_forall in Hc. now apply Hc.
+    - intros a _. apply Hmem. }
+  exists s. split; [|split; [|split]].
+  - apply feasible_altdel_unfold. split; [assumption|]. split; [assumption|]. split; [assumption|].
+    apply (altdel_cons_sem alts axis' (posn_axis alts axis') s Hnd Hperm Hpos (proj1 Hst) Hlf Hda p Hc).
+    now rewrite EK, ED, Hk'.
+  - rewrite objective_altdel by assumption. f_equal. rewrite <- Hk.
+    apply Permutation_length. apply NoDup_Permutation; [apply (decode_alts_nodup alts s Hnd)|assumption|exact Hmem].
+  - now rewrite Hdec.
+  - exact Hmem.
+Qed.
+
+(* the optimum of the ILP is the minimum number of alternatives to delete *)
+Theorem ilp_altdel_optimum alts p z : NoDup alts -> Forall (complete_on alts) p ->
+  (ilp_opt (altdel_ilp alts p) z <-> z = Z.of_nat (min_alt_del alts p)).
+Proof.
+  intros Hnd Hc.
+  assert (Hlow : forall s, feasible (altdel_ilp alts p) s -> Z.of_nat (min_alt_del alts p) <= objective (altdel_ilp alts p) s).
+  { intros s Hf. destruct (ilp_altdel_sound alts p s Hnd Hc Hf) as [Eo Hcert]. rewrite Eo.
+    apply cert_alt_valid_bound in Hcert; [|assumption|assumption]. lia. }
+  assert (Hex : exists s, feasible (altdel_ilp alts p) s /\ objective (altdel_ilp alts p) s = Z.of_nat (min_alt_del alts p)).
+  { destruct (min_alt_del_witness alts p) as (D & Hs & Hl & Hok).
+    apply alt_del_ok_correct in Hok; [|assumption|assumption]. destruct Hok as (axis & Hperm & Hsp).
+    assert (Hkeep : keepN D axis = axis).
+    { apply filter_all. intros x Hx. eapply Permutation_in in Hx; [|apply Permutation_sym; exact Hperm].
+      apply keepN_In in Hx. destruct Hx as [_ Hx]. apply negb_true_iff. now apply memN_false. }
+    assert (Hcert : cert_alt alts p (min_alt_del alts p) axis D = true).
+    { apply cert_alt_correct; [assumption|assumption|]. split; [eapply sublist_NoDup; eauto|].
+      split; [now apply sublist_incl|]. split; [assumption|]. rewrite Hkeep. auto. }
+    destruct (ilp_altdel_complete alts p _ axis D Hnd Hc Hcert) as (s & Hf & Ho & _). eauto. }
+  split.
+  - intros [(s & Hf & Ho) Hmin]. destruct Hex as (s' & Hf' & Ho').
+    pose proof (Hlow s Hf). pose proof (Hmin s' Hf'). lia.
+  - intros ->. split; [exact Hex|exact Hlow].
+Qed.
